@@ -12,6 +12,9 @@
    In every model a refused call returns `Err`, which carries no state: "changes
    nothing" is structural (C05_refused_changes_nothing). *)
 From LP Require Import Num Pay Sg1 MinterVending MinterVendingProofs Auth AuthProofs.
+(* Part 3 names the other properties' handler models by their qualified names (they reuse
+   step, env, is_admin, ...): required, not imported *)
+From LP Require MinterOpen MinterOpenProofs TokenMerge Collection Wl WlTiered Stages Splits Params AuthFullProofs.
 Import ListNotations.
 Local Open Scope N_scope.
 
@@ -379,6 +382,312 @@ Theorem C05_refused_changes_nothing : forall st env sender m,
 Proof. exact refused_changes_nothing. Qed.
 
 (* ====================================================================== *)
+(* PART 3 — the same clauses over the FULL handler models                  *)
+(* ====================================================================== *)
+(* The handler models built for the other properties (MinterOpen, TokenMerge, Collection,
+   Wl, WlTiered, Stages, Splits, Params) carry the sender checks together with every
+   other guard (payment, time, supply, argument validity): here nothing is an oracle
+   except the cross-contract answers those models already take as inputs.  One theorem
+   per family lists the reserved messages explicitly.  Left to Part 2 because the full
+   model does not contain the check: token-merge UpdateStartTradingTime (not in
+   TokenMerge.v), the admin-list messages of tiered-whitelist-merkletree (Stages.v keeps
+   the admin list constant), whitelist-immutable (no execute entry point), the minters'
+   Status (Status.v has only the sudo path) and sg-eth-airdrop (Airdrop.v binds the
+   claiming wallet through signature oracles, C16). *)
+
+(* ---- open-edition minters (three variants), full handler `ostep` ---- *)
+Theorem C05_full_oe_reserved_handlers_reject_non_admin : forall vr s e fp wv,
+  e_sender e <> MinterOpen.o_admin s ->
+  (forall recipient_ok recipient, MinterOpen.ostep vr s e fp wv (MinterOpen.EMintTo recipient_ok recipient) = Err) /\
+  MinterOpen.ostep vr s e fp wv MinterOpen.EBurnRemaining = Err /\
+  (forall price, MinterOpen.ostep vr s e fp wv (MinterOpen.EUpdateMintPrice price) = Err) /\
+  (forall t, MinterOpen.ostep vr s e fp wv (MinterOpen.EUpdateStartTime t) = Err) /\
+  (forall t, MinterOpen.ostep vr s e fp wv (MinterOpen.EUpdateEndTime t) = Err) /\
+  (forall t, MinterOpen.ostep vr s e fp wv (MinterOpen.EUpdateStartTradingTime t) = Err) /\
+  (forall limit, MinterOpen.ostep vr s e fp wv (MinterOpen.EUpdatePerAddressLimit limit) = Err) /\
+  (forall addr_ok whitelist its_config,
+     MinterOpen.ostep vr s e fp wv (MinterOpen.ESetWhitelist addr_ok whitelist its_config) = Err).
+Proof. exact AuthFullProofs.FullOE.oe_nonadmin_rejected. Qed.
+
+Theorem C05_full_oe_admin_never_changes : forall vr s e fp wv o s' msgs,
+  MinterOpen.ostep vr s e fp wv o = Ok (s', msgs) -> MinterOpen.o_admin s' = MinterOpen.o_admin s.
+Proof. exact AuthFullProofs.FullOE.oe_admin_constant. Qed.
+
+(* in every reachable state: after any history of calls by anyone, every call that is not
+   Mint or Purge is refused for anyone but the admin the minter was created with, and
+   leaves the state as it was *)
+Theorem C05_full_oe_non_admin_rejected_in_every_reachable_state : forall vr s history c,
+  (match MinterOpenProofs.oc_op c with MinterOpen.EMint _ _ _ | MinterOpen.EPurge => False | _ => True end) ->
+  e_sender (MinterOpenProofs.oc_env c) <> MinterOpen.o_admin s ->
+  MinterOpen.ostep vr (MinterOpenProofs.orun vr s history) (MinterOpenProofs.oc_env c) (MinterOpenProofs.oc_fp c)
+                   (MinterOpenProofs.oc_wv c) (MinterOpenProofs.oc_op c) = Err /\
+  MinterOpenProofs.o_apply vr (MinterOpenProofs.orun vr s history) c = MinterOpenProofs.orun vr s history.
+Proof. exact AuthFullProofs.FullOE.oe_nonadmin_rejected_after_history'. Qed.
+
+(* ---- base minter, full handler `bstep`: Mint (and the trading-time update) only for the
+   creator the collection reports at call time (oracle input `creator`) ---- *)
+Theorem C05_full_base_minter_only_collection_creator : forall s e creator fee_bps o,
+  creator <> Some (e_sender e) -> MinterOpen.bstep s e creator fee_bps o = Err.
+Proof. exact AuthFullProofs.FullOE.base_only_creator. Qed.
+
+(* ---- token-merge minter, full handler `TokenMerge.step` ---- *)
+Theorem C05_full_token_merge_reserved_handlers_reject_non_admin : forall minter now st caller,
+  caller <> TokenMerge.tm_admin st ->
+  (forall recipient funds pick, TokenMerge.step minter now (TokenMerge.OMintTo caller recipient funds pick) st = Err) /\
+  (forall token_id recipient funds, TokenMerge.step minter now (TokenMerge.OMintFor caller token_id recipient funds) st = Err) /\
+  (forall funds, TokenMerge.step minter now (TokenMerge.OBurnRemaining caller funds) st = Err) /\
+  (forall t funds, TokenMerge.step minter now (TokenMerge.OUpdStart caller t funds) st = Err) /\
+  (forall limit funds, TokenMerge.step minter now (TokenMerge.OUpdLimit caller limit funds) st = Err).
+Proof. exact AuthFullProofs.FullTM.tm_nonadmin_rejected. Qed.
+
+Theorem C05_full_token_merge_admin_never_changes :
+  (forall minter now op st st' msgs,
+     TokenMerge.step minter now op st = Ok (st', msgs) -> TokenMerge.tm_admin st' = TokenMerge.tm_admin st) /\
+  (forall minter history sg,
+     TokenMerge.tm_admin (fst (TokenMerge.grun minter history sg)) = TokenMerge.tm_admin (fst sg)).
+Proof. exact (conj AuthFullProofs.FullTM.tm_admin_constant AuthFullProofs.FullTM.tm_admin_constant_run). Qed.
+
+(* ---- collections, full handler `Collection.step` (all four collection types) ---- *)
+(* mint, trading time, offering and renouncing the minter role: only the current
+   cw-ownable owner; accepting: only the proposed owner *)
+Theorem C05_full_collection_mint_and_trading_time_only_minter : forall ct self e s,
+  Collection.o_owner (Collection.own s) <> Some (Collection.sender e) ->
+  (forall id owner uri, Collection.step ct self e (Collection.OMint id owner uri) s = Err) /\
+  (forall t, Collection.step ct self e (Collection.OStartTrading t) s = Err) /\
+  (forall new_owner expiry, Collection.step ct self e (Collection.OOwnTransfer new_owner expiry) s = Err) /\
+  Collection.step ct self e Collection.OOwnRenounce s = Err.
+Proof. exact AuthFullProofs.FullColl.coll_minter_only. Qed.
+
+Theorem C05_full_collection_accept_only_proposed_minter : forall ct self e s,
+  Collection.o_pending (Collection.own s) <> Some (Collection.sender e) ->
+  Collection.step ct self e Collection.OOwnAccept s = Err.
+Proof. exact AuthFullProofs.FullColl.coll_accept_only_pending. Qed.
+
+(* after transfer + accept the new owner is the minter and the old one can neither mint
+   nor set the trading time *)
+Theorem C05_full_collection_minter_after_handover : forall ct self e1 e2 s b expiry,
+  Collection.supports ct Collection.OOwnAccept = true ->
+  Collection.o_owner (Collection.own s) = Some (Collection.sender e1) -> Collection.sender e2 = b ->
+  (forall x, expiry = Some x -> Collection.is_expired (Collection.now e2) x = false) ->
+  exists s1 s2,
+    Collection.step ct self e1 (Collection.OOwnTransfer b expiry) s = Ok (s1, []) /\
+    Collection.step ct self e2 Collection.OOwnAccept s1 = Ok (s2, []) /\
+    Collection.o_owner (Collection.own s2) = Some b /\
+    (Collection.sender e1 <> b -> forall e3 id owner uri t,
+       Collection.sender e3 = Collection.sender e1 ->
+       Collection.step ct self e3 (Collection.OMint id owner uri) s2 = Err /\
+       Collection.step ct self e3 (Collection.OStartTrading t) s2 = Err).
+Proof. exact AuthFullProofs.FullColl.coll_ownership_handover. Qed.
+
+(* collection-info, freeze and token-metadata updates only for the creator *)
+Theorem C05_full_collection_info_freeze_metadata_only_creator : forall ct self e s,
+  Collection.ci_creator (Collection.info s) <> Collection.sender e ->
+  (forall m, Collection.step ct self e (Collection.OUpdateInfo m) s = Err) /\
+  Collection.step ct self e Collection.OFreezeInfo s = Err /\
+  (forall id uri, Collection.step ct self e (Collection.OUpdateTokenMd id uri) s = Err) /\
+  Collection.step ct self e Collection.OFreezeTokenMd s = Err /\
+  Collection.step ct self e Collection.OEnableUpdatable s = Err.
+Proof. exact AuthFullProofs.FullColl.coll_creator_only. Qed.
+
+(* creator hand-over: the accepted update came from the creator, the named account is the
+   creator afterwards and the old one is refused *)
+Theorem C05_full_collection_creator_after_handover : forall ct self e m s s' msgs c,
+  Collection.step ct self e (Collection.OUpdateInfo m) s = Ok (s', msgs) -> Collection.u_creator m = Some c ->
+  Collection.ci_creator (Collection.info s) = Collection.sender e /\
+  Collection.ci_creator (Collection.info s') = c /\
+  (c <> Collection.sender e -> forall e', Collection.sender e' = Collection.sender e ->
+     (forall m', Collection.step ct self e' (Collection.OUpdateInfo m') s' = Err) /\
+     Collection.step ct self e' Collection.OFreezeInfo s' = Err).
+Proof. exact AuthFullProofs.FullColl.coll_creator_handover. Qed.
+
+(* frozen => rejected for everyone, through every later history *)
+Theorem C05_full_collection_frozen_rejects_everyone :
+  (forall ct self e m s, Collection.frozen s = true -> Collection.step ct self e (Collection.OUpdateInfo m) s = Err) /\
+  (forall ct self e id uri s, Collection.md_frozen s = true ->
+     Collection.step ct self e (Collection.OUpdateTokenMd id uri) s = Err) /\
+  (forall ct self calls s, Collection.frozen s = true -> Collection.frozen (Collection.run ct self s calls) = true) /\
+  (forall ct self calls s, Collection.md_frozen s = true -> Collection.md_frozen (Collection.run ct self s calls) = true).
+Proof.
+  exact (conj AuthFullProofs.FullColl.coll_frozen_rejects (conj AuthFullProofs.FullColl.coll_md_frozen_rejects
+        (conj AuthFullProofs.FullColl.coll_frozen_forever AuthFullProofs.FullColl.coll_md_frozen_forever))).
+Qed.
+
+(* tokens, with expiring approvals and operators (which Auth.v does not model) *)
+Theorem C05_full_collection_token_moves_only_for_holder_or_approved : forall ct self e id s,
+  (forall t, Collection.tfind id (Collection.tokens s) = Some t ->
+             Collection.check_can_send (Collection.now e) (Collection.sender e) s t = false) ->
+  (forall to, Collection.step ct self e (Collection.OTransfer to id) s = Err) /\
+  (forall to receiver_accepts, Collection.step ct self e (Collection.OSend to id receiver_accepts) s = Err) /\
+  Collection.step ct self e (Collection.OBurn id) s = Err.
+Proof. exact AuthFullProofs.FullColl.coll_token_ops. Qed.
+
+Theorem C05_full_collection_approvals_only_for_holder_or_operator : forall ct self e id spender s,
+  (forall t, Collection.tfind id (Collection.tokens s) = Some t ->
+             Collection.check_can_approve (Collection.now e) (Collection.sender e) s t = false) ->
+  (forall expiry, Collection.step ct self e (Collection.OApprove spender id expiry) s = Err) /\
+  Collection.step ct self e (Collection.ORevoke spender id) s = Err.
+Proof. exact AuthFullProofs.FullColl.coll_approval_ops. Qed.
+
+(* ---- whitelists: plain, flex, Merkle — full handler `Wl.exec` ---- *)
+Theorem C05_full_whitelist_changes_only_for_admins : forall (valid : addr -> bool) self e w,
+  Wl.is_admin (Wl.e_sender e) w = false ->
+  (forall t, Wl.exec valid self e (Wl.OUpdStart t) w = Err) /\
+  (forall t, Wl.exec valid self e (Wl.OUpdEnd t) w = Err) /\
+  (forall members, Wl.exec valid self e (Wl.OAdd members) w = Err) /\
+  (forall members, Wl.exec valid self e (Wl.ORemove members) w = Err) /\
+  (forall limit, Wl.exec valid self e (Wl.OUpdPal limit) w = Err) /\
+  (forall admins, Wl.exec valid self e (Wl.OUpdAdmins admins) w = Err) /\
+  Wl.exec valid self e Wl.OFreeze w = Err.
+Proof. exact AuthFullProofs.FullWl.wl_admin_only. Qed.
+
+Theorem C05_full_whitelist_admin_list_needs_can_modify : forall (valid : addr -> bool) self e o w w' msgs,
+  Wl.exec valid self e o w = Ok (w', msgs) ->
+  match o with
+  | Wl.OUpdAdmins l =>
+      (Wl.w_mutable w && Wl.is_admin (Wl.e_sender e) w = true) /\ Wl.w_admins w' = l /\ Wl.w_mutable w' = Wl.w_mutable w
+  | Wl.OFreeze =>
+      (Wl.w_mutable w && Wl.is_admin (Wl.e_sender e) w = true) /\ Wl.w_admins w' = Wl.w_admins w /\ Wl.w_mutable w' = false
+  | _ => Wl.w_admins w' = Wl.w_admins w /\ Wl.w_mutable w' = Wl.w_mutable w
+  end /\ Wl.w_kind w' = Wl.w_kind w.
+Proof. exact AuthFullProofs.FullWl.wl_exec_admins. Qed.
+
+Theorem C05_full_whitelist_frozen_forever : forall (valid : addr -> bool) self history w,
+  Wl.w_mutable w = false ->
+  (forall e l, Wl.exec valid self e (Wl.OUpdAdmins l) w = Err) /\
+  (forall e, Wl.exec valid self e Wl.OFreeze w = Err) /\
+  Wl.w_admins (Wl.run valid self history w) = Wl.w_admins w /\
+  Wl.w_mutable (Wl.run valid self history w) = false.
+Proof. exact AuthFullProofs.FullWl.wl_frozen_statement. Qed.
+
+(* ---- tiered and tiered-flex whitelists, full handler `WlTiered.t_exec` ---- *)
+Theorem C05_full_tiered_whitelist_changes_only_for_admins : forall (valid : addr -> bool) self e w,
+  WlTiered.t_is_admin (Wl.e_sender e) w = false ->
+  (forall stage members, WlTiered.t_exec valid self e (WlTiered.TAdd stage members) w = Err) /\
+  (forall stage members, WlTiered.t_exec valid self e (WlTiered.TRemove stage members) w = Err) /\
+  (forall stage members, WlTiered.t_exec valid self e (WlTiered.TAddStage stage members) w = Err) /\
+  (forall stage, WlTiered.t_exec valid self e (WlTiered.TRemoveStage stage) w = Err) /\
+  (forall stage start end_ limit, WlTiered.t_exec valid self e (WlTiered.TUpdStage stage start end_ limit) w = Err) /\
+  (forall admins, WlTiered.t_exec valid self e (WlTiered.TUpdAdmins admins) w = Err) /\
+  WlTiered.t_exec valid self e WlTiered.TFreeze w = Err.
+Proof. exact AuthFullProofs.FullTiered.tiered_admin_only. Qed.
+
+Theorem C05_full_tiered_whitelist_frozen_forever : forall (valid : addr -> bool) self history w,
+  WlTiered.t_mutable w = false ->
+  (forall e l, WlTiered.t_exec valid self e (WlTiered.TUpdAdmins l) w = Err) /\
+  (forall e, WlTiered.t_exec valid self e WlTiered.TFreeze w = Err) /\
+  WlTiered.t_admins (WlTiered.t_run valid self history w) = WlTiered.t_admins w /\
+  WlTiered.t_mutable (WlTiered.t_run valid self history w) = false.
+Proof. exact AuthFullProofs.FullTiered.tiered_frozen_statement. Qed.
+
+(* ---- the stage and member handlers of the three tiered kinds incl. Merkle, `Stages.step`
+   (C13_only_admins_change_anything in this property's wording) ---- *)
+Theorem C05_full_stage_messages_only_for_admins : forall w now o,
+  Stages.is_admin w
+    (match o with
+     | Stages.AddStage s _ _ | Stages.RemoveStage s _ | Stages.UpdateStage s _ _ _ _ _ _ _
+     | Stages.AddMembers s _ _ | Stages.RemoveMembers s _ _ => s
+     end) = false ->
+  Stages.step w now o = Err.
+Proof. exact AuthFullProofs.FullStages.stages_admin_only. Qed.
+
+(* ---- splits, full world `Splits.step` (cw4-group and bank included) ---- *)
+Theorem C05_full_splits_distribute_only_admin_or_member_without_admin : forall w s denoms,
+  (Splits.can_distribute w s = true <->
+     match Splits.w_admin w with
+     | Some a => a = s
+     | None => exists m, In m (Splits.w_members w) /\ Splits.m_addr m = s
+     end) /\
+  (Splits.can_distribute w s = false ->
+     Splits.distribute w s denoms = Err /\ Splits.step w (Splits.Distribute s denoms) = Err) /\
+  (forall a, Splits.w_admin w = Some a -> s <> a -> Splits.step w (Splits.Distribute s denoms) = Err) /\
+  (Splits.w_admin w = None -> (forall m, In m (Splits.w_members w) -> Splits.m_addr m <> s) ->
+     Splits.step w (Splits.Distribute s denoms) = Err).
+Proof. exact AuthFullProofs.FullSplits.splits_distribute_statement. Qed.
+
+Theorem C05_full_splits_admin_changes_only_by_admin :
+  (forall w s new_admin, Splits.w_admin w <> Some s -> Splits.step w (Splits.UpdateAdmin s new_admin) = Err) /\
+  (forall w o w', Splits.step w o = Ok w' -> Splits.w_admin w' <> Splits.w_admin w ->
+     exists s na, o = Splits.UpdateAdmin s na /\ Splits.w_admin w = Some s /\ Splits.w_admin w' = na).
+Proof. exact (conj AuthFullProofs.FullSplits.splits_update_admin_only_admin AuthFullProofs.FullSplits.splits_admin_frame). Qed.
+
+(* ---- factories (Params.v): CreateMinter is `params -> request -> result unit`, it has no
+   successor parameters; over any interleaving of governance updates and user creations
+   the parameters are those after the governance updates alone — instantiated for the
+   four factories ---- *)
+Theorem C05_full_factory_params_move_only_by_sudo :
+  (forall calls p, AuthFullProofs.FullFactory.frun Params.base_sudo Params.base_create p calls
+                   = Params.apply_seq Params.base_sudo p (AuthFullProofs.FullFactory.gov_only calls)) /\
+  (forall calls p, AuthFullProofs.FullFactory.frun Params.vending_sudo Params.vending_create p calls
+                   = Params.apply_seq Params.vending_sudo p (AuthFullProofs.FullFactory.gov_only calls)) /\
+  (forall calls p, AuthFullProofs.FullFactory.frun Params.oe_sudo Params.oe_create p calls
+                   = Params.apply_seq Params.oe_sudo p (AuthFullProofs.FullFactory.gov_only calls)) /\
+  (forall calls p, AuthFullProofs.FullFactory.frun Params.tm_sudo Params.tm_create p calls
+                   = Params.apply_seq Params.tm_sudo p (AuthFullProofs.FullFactory.gov_only calls)).
+Proof. exact AuthFullProofs.FullFactory.four_factories. Qed.
+
+(* ---- model/Auth.v agrees with the full models ---- *)
+(* Whatever a full handler accepts, Auth.v authorizes from the abstracted state (and its
+   principals afterwards are the abstraction of the full model's next state); hence a call
+   Auth.v refuses is refused by the full handler — the Part 2 table is sound for them. *)
+Theorem C05_auth_model_agrees_vending : forall vr s e fp wv o s' msgs creator status params,
+  step vr s e fp wv o = Ok (s', msgs) ->
+  minter_step FVending (mkMS (s_admin s) creator status params) (e_sender e) (AuthFullProofs.FullVending.kind_of o)
+  = Ok (mkMS (s_admin s') creator status params).
+Proof. exact AuthFullProofs.FullVending.vending_agrees. Qed.
+
+Theorem C05_auth_model_agrees_open_edition : forall vr s e fp wv o s' msgs creator status params,
+  MinterOpen.ostep vr s e fp wv o = Ok (s', msgs) ->
+  minter_step FOpenEdition (mkMS (MinterOpen.o_admin s) creator status params) (e_sender e) (AuthFullProofs.FullOE.kind_of o)
+  = Ok (mkMS (MinterOpen.o_admin s') creator status params).
+Proof. exact AuthFullProofs.FullOE.oe_agrees. Qed.
+
+Theorem C05_auth_model_agrees_base_minter : forall s e creator fee_bps o s' msgs c status params,
+  MinterOpen.bstep s e creator fee_bps o = Ok (s', msgs) -> creator = Some c ->
+  minter_step FBase (mkMS 0 c status params) (e_sender e)
+    (match o with MinterOpen.BMint _ => KMint | MinterOpen.BUpdateStartTradingTime _ => KUpdateStartTradingTime end)
+  = Ok (mkMS 0 c status params).
+Proof. exact AuthFullProofs.FullOE.base_agrees. Qed.
+
+Theorem C05_auth_model_agrees_token_merge : forall minter now op st st' msgs creator status params,
+  TokenMerge.step minter now op st = Ok (st', msgs) ->
+  minter_step FTokenMerge (mkMS (TokenMerge.tm_admin st) creator status params)
+              (AuthFullProofs.FullTM.op_caller op) (AuthFullProofs.FullTM.kind_of op)
+  = Ok (mkMS (TokenMerge.tm_admin st') creator status params).
+Proof. exact AuthFullProofs.FullTM.tm_agrees. Qed.
+
+(* collections: the role-reserved messages that do not touch the token table (trading
+   time, collection info, freezes, the three ownership actions, enable); `abs` keeps
+   ownership, creator and the three flags *)
+Theorem C05_auth_model_agrees_collection : forall ct self e o s s' msgs c height,
+  Collection.step ct self e o s = Ok (s', msgs) -> AuthFullProofs.FullColl.msg_abs o = Some c ->
+  coll_step (AuthFullProofs.FullColl.kind_abs ct) (AuthFullProofs.FullColl.abs s)
+            (mkAE (Collection.now e) height) (Collection.sender e) c
+  = Ok (AuthFullProofs.FullColl.abs s').
+Proof. exact AuthFullProofs.FullColl.coll_agrees. Qed.
+
+Theorem C05_auth_model_agrees_whitelist : forall (valid : addr -> bool) self e o w w' msgs,
+  Wl.exec valid self e o w = Ok (w', msgs) ->
+  wl_step (AuthFullProofs.FullWl.kind_abs (Wl.w_kind w)) (mkWS (Wl.w_admins w) (Wl.w_mutable w)) (Wl.e_sender e)
+          (AuthFullProofs.FullWl.msg_abs o)
+  = Ok (mkWS (Wl.w_admins w') (Wl.w_mutable w')).
+Proof. exact AuthFullProofs.FullWl.wl_agrees. Qed.
+
+Theorem C05_auth_model_agrees_splits :
+  (forall w s, splits_step (AuthFullProofs.FullSplits.abs w) s SDistribute = Err <-> Splits.can_distribute w s = false) /\
+  (forall w s denoms w', Splits.step w (Splits.Distribute s denoms) = Ok w' ->
+     splits_step (AuthFullProofs.FullSplits.abs w) s SDistribute = Ok (AuthFullProofs.FullSplits.abs w')) /\
+  (forall w s na,
+     match Splits.step w (Splits.UpdateAdmin s na), splits_step (AuthFullProofs.FullSplits.abs w) s (SUpdateAdmin na) with
+     | Ok w', Ok a' => a' = AuthFullProofs.FullSplits.abs w'
+     | Err, Err => True
+     | _, _ => False
+     end).
+Proof.
+  exact (conj AuthFullProofs.FullSplits.splits_agrees_distribute
+        (conj AuthFullProofs.FullSplits.splits_agrees_distribute_ok AuthFullProofs.FullSplits.splits_agrees_update_admin)).
+Qed.
+
+(* ====================================================================== *)
 (* non-vacuity                                                             *)
 (* ====================================================================== *)
 Definition ex_fp : fparams := mkFP 50 0 1000 0 0 10000 500 50 604800.
@@ -483,6 +792,36 @@ Print Assumptions C05_splits_admin_changes_only_by_admin.
 Print Assumptions C05_airdrop_claim_only_signed_wallet.
 Print Assumptions C05_instantiate_requires_contract_sender.
 Print Assumptions C05_refused_changes_nothing.
+Print Assumptions C05_full_oe_reserved_handlers_reject_non_admin.
+Print Assumptions C05_full_oe_admin_never_changes.
+Print Assumptions C05_full_oe_non_admin_rejected_in_every_reachable_state.
+Print Assumptions C05_full_base_minter_only_collection_creator.
+Print Assumptions C05_full_token_merge_reserved_handlers_reject_non_admin.
+Print Assumptions C05_full_token_merge_admin_never_changes.
+Print Assumptions C05_full_collection_mint_and_trading_time_only_minter.
+Print Assumptions C05_full_collection_accept_only_proposed_minter.
+Print Assumptions C05_full_collection_minter_after_handover.
+Print Assumptions C05_full_collection_info_freeze_metadata_only_creator.
+Print Assumptions C05_full_collection_creator_after_handover.
+Print Assumptions C05_full_collection_frozen_rejects_everyone.
+Print Assumptions C05_full_collection_token_moves_only_for_holder_or_approved.
+Print Assumptions C05_full_collection_approvals_only_for_holder_or_operator.
+Print Assumptions C05_full_whitelist_changes_only_for_admins.
+Print Assumptions C05_full_whitelist_admin_list_needs_can_modify.
+Print Assumptions C05_full_whitelist_frozen_forever.
+Print Assumptions C05_full_tiered_whitelist_changes_only_for_admins.
+Print Assumptions C05_full_tiered_whitelist_frozen_forever.
+Print Assumptions C05_full_stage_messages_only_for_admins.
+Print Assumptions C05_full_splits_distribute_only_admin_or_member_without_admin.
+Print Assumptions C05_full_splits_admin_changes_only_by_admin.
+Print Assumptions C05_full_factory_params_move_only_by_sudo.
+Print Assumptions C05_auth_model_agrees_vending.
+Print Assumptions C05_auth_model_agrees_open_edition.
+Print Assumptions C05_auth_model_agrees_base_minter.
+Print Assumptions C05_auth_model_agrees_token_merge.
+Print Assumptions C05_auth_model_agrees_collection.
+Print Assumptions C05_auth_model_agrees_whitelist.
+Print Assumptions C05_auth_model_agrees_splits.
 Print Assumptions C05_ex_vending_admin_succeeds_stranger_fails.
 Print Assumptions C05_ex_collection_history.
 Print Assumptions C05_ex_whitelist_history.
